@@ -163,7 +163,32 @@ func genV4(rng *rand.Rand) string {
 
 // genV6 builds an IPv6 text from a shape: number of fields, ellipsis position,
 // optional IPv4 tail, optional zone.
+// genV6Long: the longest spellings (four hex digits per group, a three-digit-octet IPv4 tail, an
+// optional zone): address parts of 39..45 bytes, beyond every "significant prefix" bound
+func genV6Long(rng *rand.Rand) string {
+	g := func() string { return fmt.Sprintf("%04x", 0x1000+rng.IntN(0xf000)) }
+	v4 := fmt.Sprintf("%d.%d.%d.%d", 100+rng.IntN(156), 100+rng.IntN(156), 100+rng.IntN(156), 100+rng.IntN(156))
+	var s string
+	switch rng.IntN(5) {
+	case 0:
+		s = strings.Join([]string{g(), g(), g(), g(), g(), g(), g(), g()}, ":")
+	case 1, 2:
+		s = strings.Join([]string{g(), g(), g(), g(), g(), g()}, ":") + ":" + v4
+	case 3:
+		s = strings.Join([]string{g(), g(), g(), g(), g()}, ":") + "::" + v4
+	default:
+		s = strings.Join([]string{g(), g(), g(), g(), g(), g(), g()}, ":") + ":" + v4 // one field too many
+	}
+	if rng.IntN(2) == 0 {
+		s += "%" + pick(rng, "eth0", "1", "wlan0.100", "e")
+	}
+	return s
+}
+
 func genV6(rng *rand.Rand) string {
+	if rng.IntN(12) == 0 {
+		return genV6Long(rng)
+	}
 	nf := rng.IntN(10)
 	ell := -1
 	if rng.IntN(2) == 0 {
